@@ -54,7 +54,8 @@ LEVEL_TEXT = ("Lean 4 theorems over the executable model of _partition_write_loa
               "rank (replicated bytes written = sum of unit sizes), every rank that received work ends at most its last unit "
               "above any other rank, every rank's view after consolidation holds all chunks, and a glob-matching path missing on "
               "a rank stays private. Tied to the real code on every run by differential correspondence through the simulated "
-              "process group; the property is also evaluated on real write logs and restores.")
+              "process group; the property is also evaluated on real write logs and restores."
+              ' Whole-job data plane: a replicated unit is kept by exactly the rank the partition names, and summed over all ranks the replicated bytes written are those of one copy, for every partition (C06_world_*); the glob model proves that K/** selects exactly the paths below K/ (glob_subtree, glob_subtree_sibling).')
 LEVEL_NOTE = ("Trusted: Lean kernel, the hand model lean/TsModel/Partition.lean (+ManifestOps.lean), the harness/simulator; "
               "fnmatch and the size estimates are inputs of the model.")
 TECHNIQUE = "Lean 4 proof (greedy-assignment induction) + differential correspondence through the simulated process group + write-log oracle"
